@@ -11,7 +11,7 @@ oracle: Verilated `hex` (built from the working tree, --public-flat-rw) vs extra
         system-call shim re-implemented in the harness."""
 import glob, json, os, re, shutil, sys
 sys.path.insert(0, os.path.dirname(os.path.abspath(__file__)))
-import vlib, gen_rtl
+import vlib, gen_rtl, tbcommon
 from vlib import Check, sh, run3
 
 W32 = 1 << 32
@@ -145,7 +145,8 @@ def main():
                               'harness/rtl_hex.cpp (incl. the re-implemented system-call shim), g++ 12']
     ck.assumptions = ['Inv: register widths, memory words < 2^32, low nibble of oreg_q clear (proved to hold after reset and to be preserved)',
                       'in_range: next pc / branch / BRB target / LDAP result < 800000; word addresses < 200000 follow from Isa.step = Ok',
-                      'READ system call: the memory write is the testbench shim\'s; run theorems assume it does not overwrite the byte of its own SVC instruction (read_safe)',
+                      'READ system call: the memory write is the testbench shim\'s; run theorems assume it does not overwrite the byte of its own SVC instruction (read_safe) -- '
+                      'KNOWN FINDING (known_findings.json, kind read-overwrites-own-svc): inside the literal quantifier the RTL+shim and the ISA differ on exactly that shape; exhibited on every run by two hand-assembled images',
                       'runs start from a properly reset state (registers 0, image loaded); hextb\'s own reset sequence is property C13',
                       '2-state semantics as Verilator implements it; timing, X-propagation, synthesis not modelled',
                       'file streams (>= 256) are empty in the run harness; console input is stdin']
@@ -368,6 +369,39 @@ def main():
                              {'binary': kb, 'input': list(inp), 'isa': first[0], 'rtl': first[1], 'isa_end': isa[-1], 'rtl_end': rtl[-1],
                               'replay_cmd': './check C03 --replay <this file>'}, tags={'kind': 'run'})
         ck.log('whole runs: %d (%d clocks, ISA endings %s), differing %d' % (runs, total_clocks, run_classes, rundiff))
+    # ---- the known-finding shape inside the literal quantifier (judged, reported through known_findings.json):
+    # a READ system call whose result slot mem[sp+1] is the word that holds its own OPR SVC.  The testbench's shim
+    # writes the byte before the clock edge that retires the SVC, so the RTL retires the overwritten byte, the ISA the SVC
+    # (hypothesis read_safe of C03_clock_refines_isa / C03_run_refines_isa).
+    shapes_run = 0
+    exhibits = []
+    if not ck.replay_arg or json.load(open(ck.replay_arg)).get('shape'):
+        only = json.load(open(ck.replay_arg)).get('shape') if ck.replay_arg else None
+        for sname, (img, sinp, kind, isa_does, rtl_does) in sorted(tbcommon.known_shapes().items()):
+            if kind != 'read-overwrites-own-svc' or (only and sname != only):
+                continue
+            b = os.path.join(d, 'shape-%s.bin' % sname)
+            open(b, 'wb').write(img)
+            ip = os.path.join(d, 'shape.in')
+            open(ip, 'wb').write(sinp)
+            n = 12
+            _, t1, _ = run3([hv, 'c03run', b, str(n), '0', str(n), 'judge-all'], cwd=d, stdin=open(ip, 'rb'), timeout=120)
+            _, t2, _ = run3([har, 'run', b, str(n), '0', str(n)], cwd=d, stdin=open(ip, 'rb'), timeout=120)
+            ti = [l for l in t1.decode().split('\n') if l.startswith('T ')]
+            tr = [l for l in t2.decode().split('\n') if l.startswith('T ')]
+            shapes_run += 1
+            ck.cov['evaluations'] += 1
+            first = next(((x, y) for x, y in zip(ti, tr) if x != y), None)
+            if first is None and len(ti) != len(tr):
+                first = ((ti + ['(ended)'])[min(len(ti), len(tr))], (tr + ['(ended)'])[min(len(ti), len(tr))])
+            exhibits.append({'shape': sname, 'differs': first is not None, 'isa': first[0] if first else None, 'rtl': first[1] if first else None})
+            if first is not None:
+                ck.violation('READ whose result slot is the word of its own SVC (%s): the ISA %s, the RTL with the testbench shim %s: ISA [%s] RTL [%s]'
+                             % (sname, isa_does, rtl_does, first[0], first[1]),
+                             {'shape': sname, 'binary_hex': img.hex(), 'input': list(sinp), 'isa': ti, 'rtl': tr, 'replay_cmd': './check C03 --replay <this file>'},
+                             tags={'kind': 'read-overwrites-own-svc'})
+    ck.cov['known_finding_shapes_run'] = shapes_run
+    ck.cov['known_finding_exhibits'] = exhibits
     ck.cov['distinct_nontrivial'] = len(distinct)
     ck.cov['rule'] = ('planted state = (pc, areg, breg, oreg, memory cells) for each of the 256 instruction bytes, one clock; judged iff Isa.step is defined, '
                       'oreg mod 16 = 0 and the produced byte addresses are < 800000; non-trivial = judged; distinct by (byte, ISA successor registers, written word, event class); '
